@@ -480,6 +480,19 @@ class Dict(dict, base.Symbolic, pg_typing.CustomTyping):
     for k in self.sym_keys():
       yield k, self._sym_getattr(k)
 
+  @property
+  def accessor_writable(self) -> bool:
+    """Returns True if mutation can be made by item / attribute assignment."""
+    # NOTE: the attribute container of a `pg.Object` is handed out by public
+    # accessors (e.g. `sym_init_args`): writing through it is writing the
+    # object's attributes, so the object's flag decides (the container's own
+    # flag stays True for `Object.__setattr__`, which checks the object first).
+    if self._as_object_attributes_container:
+      owner = self.sym_parent
+      if owner is not None:
+        return owner.accessor_writable
+    return super().accessor_writable
+
   def sym_setparent(self, parent: base.Symbolic):
     """Override set parent of Dict to handle the passing through scenario."""
     super().sym_setparent(parent)
